@@ -1152,6 +1152,13 @@ package rueidis
 //@   ensures [C05 a-done-context-sends-nothing-and-reports-its-error] returned(Err, 1) != nil ==> (calls(PutOne) == 0 && calls(syncDo) == 0 && calls(Do) == 0 && resp.err == returned(Err, 1))
 //@   assert [C05 a-request-is-queued-only-under-a-live-context] at PutOne: returned(Err, 1) == nil && arg1 == ctx
 //@   assert [C05 the-synchronous-path-gets-the-callers-deadline] at syncDo: returned(Err, 1) == nil && arg1 == first(returned(Deadline)) && arg2 == second(returned(Deadline))
+// time.Time.After is a strict order (assumed: documented meaning of After)
+//@ specfn later(a time.Time, b time.Time) bool = a.After(b)
+//@ axiom [time-after-is-asymmetric] forall a time.Time, b time.Time :: {later(a, b)} later(a, b) ==> !later(b, a)
+//@ axiom [time-after-is-irreflexive] forall a time.Time :: {later(a, a)} !later(a, a)
+//@ func pipe.syncDo #c05
+//@   modifies *
+//@   assert [C05 with-a-caller-deadline-the-connection-deadline-is-never-later-than-it] at SetDeadline#1: !later(arg1, old(dl))
 //@ func pipe.DoMulti #c05
 //@   option opaque-pkgs=github.com/redis/rueidis/internal/cmds
 //@   modifies *
